@@ -326,7 +326,8 @@ def _sub_guarded(ctx, module, fq, left, right, step):
         for sub in ast.walk(gfunc):
             if isinstance(sub, ast.If):
                 test = U(sub.test)
-                if "<" in test and "numpy.any" in test and "exponent" in test:
+                is_any = any(ctx.dotted(gmod, c.func) == "numpy.any" for c in calls_in(sub.test))
+                if "<" in test and is_any and "exponent" in test:
                     if any(isinstance(s, ast.Continue) for s in sub.body):
                         return True, "pair chosen by get_division_candidate, which skips candidates with exponent1 < exponent2"
                     if any(isinstance(s, (ast.Break, ast.Return)) for s in sub.body):
